@@ -112,6 +112,8 @@ class C11(Prop):
         if rng.random() < 0.2:
             # the broker charged other fees when the sizer was built (and during the earlier calls); its fee model is replaced before this call
             c['warm_fee'] = rng.choice([['zero'], ['pct', 0.08, 0.0], ['pct', 0.001, 0.005], ['pct', 0.2, 0.0]])
+        if rng.random() < 0.15 and c['param'] > 0:
+            c['warm_param'] = rng.choice([1.0, 2.0, 0.5, 3.0])
         return c
 
     def gen(self, rng, tier):
